@@ -292,7 +292,7 @@ func c14Ring(c *Ctx, rule string) {
 		// the report as an illustration when one is found; it never decides.
 		leaf := rc.smallEdit(name)
 		witness, note := "", ""
-		if os.Getenv("KC_C14_NOWITNESS") == "" {
+		if os.Getenv("KC_C14_WITNESS") != "" { // debugging aid only: evaluates the two SSA functions on small concrete heaps to print an example; off by default, never decides
 			witness, note = rc.refute(pf, rf)
 		}
 		if leaf != "" {
